@@ -44,7 +44,7 @@ pub fn main(args: Args) {
         run.finish(&[]);
     }
 
-    let n = args.budget("cases", 140, 4000);
+    let n = args.budget("cases", 147, 4200);
     for (arm, var) in ARMS.iter() {
         set_arm(*var);
         let o = opts_for(&args, arm, false, true);
@@ -75,6 +75,8 @@ pub fn main(args: Args) {
         ("area_reports_with_ram", 10),
         ("libraries", 4),
         ("arms", 3),
+        ("frozen_registers", 6),
+        ("frozen_ff_feeds_ff_directly", 8),
     ]);
 }
 
@@ -94,6 +96,11 @@ pub fn report(run: &Run, o: &Opts, i: u64, r: Result<CaseOut, PanicInfo>) {
     }
     let d = out.design.as_ref().unwrap();
     run.seen("arms", arm);
+    if arm == "default" && out.cfgs.iter().any(|c| c.wf.is_some()) {
+        for (name, n) in &out.counters {
+            run.count(name, *n);
+        }
+    }
     for c in &out.cfgs {
         if let Some(e) = &c.synth_err {
             run.count("synth_rejections", 1);
